@@ -29,24 +29,28 @@ import (
 func TestVerif(t *testing.T) {
 	simkit.Main(t, &simkit.Property{
 		ID: "C23", Level: "exploration", Bubble: true, TapeLimit: 3000,
-		Rule: "each run = one cluster of 3-8 nodes (each a real getsvc.Service over an in-memory store, calls between nodes go through a simulated network) holding one object of 0..16 KiB stored whole, size-split (v2 chain made by the SDK slicer, v1 chain with split ID / link listing children; child limit 1 B..2 KiB, <= 20 children) or erasure-coded by the repository's encoder (2/1, 3/1, 4/2, 3/2), placed by a per-object node order with 1-3 copies, displaced copies, a local node holding none/some/all; faults: link object missing everywhere, a child missing everywhere, 0..parity+1 EC parts lost (removed, holder down, holder hanging), nodes down (transport error) or hanging (answer only at the caller's deadline), nodes toggled between operations; then 3-10 operations through the entry node's Service: Get, Head, GetRange(off,len) and Get with offset-length / bounds / from / suffix ranges, offsets and lengths drawn from child / part boundaries -1/0/+1, 0, 1, len-1, len, len+1, random and values around 2^63 and 2^64-1. distinct = trace digest; non-trivial = split or EC object and (a fault fired or a satisfiable range crossed a child / part boundary)",
+		Rule: "each run = one cluster of 3-8 nodes (each a real getsvc.Service over an in-memory store; calls between nodes go through a simulated network) holding one object of 0..16 KiB stored whole, size-split (v2 chain as the SDK slicer makes it, v1 chain with split ID / link listing children; child limit 1 B..2 KiB, <= 20 children), erasure-coded by the repository's encoder (2/1, 3/1, 4/2, 3/2), or size-split inside an EC container (every child encoded into parts, link stored as is); placement by a per-object node order with 1-3 copies, displaced copies, parts on fall-back nodes, an entry node holding none/some/all; faults: link object missing everywhere, a child missing everywhere, 0..parity+1 EC parts lost (removed, holder down, holder hanging), nodes down (transport error) or hanging (answer only at the caller's deadline), nodes toggled between operations; then 3-10 operations through the entry node's Service with the object server's request proxying modelled: Get, Head, GetRange(off,len) and Get with offset-length / bounds / from / suffix ranges (also payload-only), offsets and lengths drawn from child / part boundaries -1/0/+1, 0, 1, len-1, len, len+1, random and values around 2^63 and 2^64-1. distinct = trace digest; non-trivial = split or EC object and (a fault fired or a satisfiable range crossed a child / part boundary)",
 		Run: runC23,
 		Assumptions: []string{
-			"a node's storage is modelled, not run: physical object by ID, split info built from stored objects whose parent ID is the requested one (link / last part / first ID / split ID as the metabase does), EC part by (parent, rule, part); ranges resolved by the storage's own common.PayloadRange.Resolve",
-			"a call to a remote node is a call of that node's real Service with TTL 1; its error is mapped through the object server's status conversion and the SDK status decoding; a stream is delivered as all bytes followed by the error; the SDK client and gRPC themselves are not executed",
+			"a node's storage is modelled, not run: physical object by ID; split info built from the stored objects (and the finished parent headers they carry, which the metabase indexes too) whose parent ID is the requested one (link / last part / first ID / split ID as metabase.getParentInfo does); EC part by (parent, rule, part), the link object or last-child split info for a size-split parent as shard.GetECPart / metabase.ResolveECPart do; ranges resolved by the storage's own common.PayloadRange.Resolve",
+			"a call to a remote node is a call of that node's real Service with TTL 1; its error is mapped through the object server's status conversion (pkg/services/util.ToStatus) and the SDK status decoding; a stream is delivered as all bytes followed by the error; RANGE errors surface on the first read as in the SDK; the SDK client and gRPC themselves are not executed",
+			"the top-level request of the entry node is proxied to container nodes the way pkg/services/object {get,range}.go do it (header once, payload bytes beyond those already passed on, 'not found' and transport failures -> next node, any other status ends the request with that status, short or empty streams refused); this proxy is a model written from that code, the code itself is not executed",
 			"a hanging node answers when the caller's context ends or after a 10 min client stream timeout; runs with a hanging node only check safety (no wrong bytes), not success",
-			"success is demanded only when every needed object (all children, or >= data-count EC parts) is held by a node that is neither down nor hanging",
-			"the entry node's local HEAD of an EC object goes to an empty real engine (hard type assertion in getECObjectHeaderByRule), so EC HEAD is always answered by a remote part holder or by nobody",
+			"success is demanded only when every needed object (all children; >= data-count parts of the EC object or of every size-split child) is held by a node that is neither down nor hanging",
+			"the entry node's local HEAD of an EC object goes to an empty real engine (hard type assertion on the engine wrapper in getECObjectHeaderByRule): EC HEAD and the headers of size-split EC children must come from another node, and success is demanded only then",
+			"the EC full GET is exercised without the server's streaming transport (Prm.WithECTransport unset: it needs the real engine and client cache), i.e. through restoreFromECPartsByRule, the path production takes after a partial or failed streaming attempt",
+			"an empty answer to GetRange and ranges the object server rejects before the service (zero length with non-zero offset, offset+length overflow) may fail with any error",
 		},
 		Components: map[string]string{
-			"getsvc.Service Get/GetRange/Head, assembly v1/v2, pipelined child streaming, EC restore / range / recovery (entry node and every remote node)": "real",
-			"split chains (v2)":        "real: SDK slicer",
-			"split chains (v1)":        "built in the harness in the legacy format (split ID, previous IDs, parent header in last part and link, children list in link)",
-			"EC parts":                 "real: internal/ec Encode + FormObjectForECPart",
-			"local object storage":     "simulated: in-memory objects answering like engine/metabase (see assumptions)",
-			"network, SDK client":      "simulated: direct call of the remote Service, status mapping by pkg/services/util.ToStatus + apistatus.ToError",
-			"placement / network map":  "simulated: per-object rotation of a per-run node order",
-			"clock / deadlines":        "real code on the simulated clock (synctest bubble)",
+			"getsvc.Service Get/GetRange/Head: local/container execution, assembly v1/v2, pipelined child streaming, EC restore / range / recovery, size-split EC objects (entry node and every remote node)": "real",
+			"split chains (v2)":       "real format: SDK slicer; chains whose link would exceed the child limit are formed by a copy of the slicer's steps that is cross-checked against the slicer (same object IDs) whenever the slicer accepts the input",
+			"split chains (v1)":       "built in the harness in the legacy format (split ID, previous IDs, parent header in last part and link, children list in link)",
+			"EC parts":                "real: internal/ec Encode + FormObjectForECPart",
+			"local object storage":    "simulated: in-memory objects answering like engine/shard/metabase (see assumptions)",
+			"network, SDK client":     "simulated: direct call of the remote Service, status mapping by pkg/services/util.ToStatus + apistatus.ToError",
+			"object server proxying":  "simulated: model of continueWithConn / HEAD transport (see assumptions)",
+			"placement / network map": "simulated: per-object rotation of a per-run node order",
+			"clock / deadlines":       "real code on the simulated clock (synctest bubble)",
 		},
 	})
 }
@@ -93,6 +97,27 @@ func (s *zzScene) availParts() int {
 	return c
 }
 
+func (s *zzScene) childAvailParts(j int) int {
+	c := 0
+	for _, p := range s.l.parts[j] {
+		if s.avail(p) {
+			c++
+		}
+	}
+	return c
+}
+
+// worstChild returns the biggest number of unavailable parts over the children and whether
+// some child misses its part #0 (size-split object of an EC container).
+func (s *zzScene) worstChild() (int, bool) {
+	worst, p0 := 0, false
+	for j := range s.l.parts {
+		worst = max(worst, len(s.l.parts[j])-s.childAvailParts(j))
+		p0 = p0 || !s.avail(s.l.parts[j][0])
+	}
+	return worst, p0
+}
+
 // dataReachable: every object the read needs is held by a healthy node.
 func (s *zzScene) dataReachable() bool {
 	if s.anyHang() {
@@ -101,6 +126,25 @@ func (s *zzScene) dataReachable() bool {
 	switch s.l.kind {
 	case "ec":
 		return s.availParts() >= int(s.w.ec.DataPartNum)
+	case "ecsplit":
+		// every child restorable; the chain is learnt from the link or from a part of the last child
+		for j := range s.l.parts {
+			if s.childAvailParts(j) < int(s.w.ec.DataPartNum) {
+				return false
+			}
+			// walking the chain back needs the child's header, which the entry node can only get
+			// from another node (its local HEAD goes to an empty engine, see the assumptions)
+			remote := false
+			for _, p := range s.l.parts[j] {
+				for _, n := range s.w.nodes[1:] {
+					remote = remote || (!n.down && !n.hang && n.find(p.GetID()) != nil)
+				}
+			}
+			if !remote {
+				return false
+			}
+		}
+		return true
 	default:
 		for _, c := range s.l.children {
 			if !s.avail(c) {
@@ -117,7 +161,26 @@ func (s *zzScene) headReachable() bool {
 	}
 	switch s.l.kind {
 	case "ec":
-		return s.availParts() >= 1
+		// the entry node's own parts do not count: its local HEAD goes to an empty engine (see
+		// the assumptions)
+		for _, p := range s.l.children {
+			for _, n := range s.w.nodes[1:] {
+				if !n.down && !n.hang && n.find(p.GetID()) != nil {
+					return true
+				}
+			}
+		}
+		return false
+	case "ecsplit":
+		// only a holder of the link object can answer (a node that knows the object from parts
+		// of the last child alone answers with split info); the entry node's own copy does not
+		// count, see "ec"
+		for _, n := range s.w.nodes[1:] {
+			if !n.down && !n.hang && n.find(s.l.link.GetID()) != nil {
+				return true
+			}
+		}
+		return false
 	case "whole":
 		return s.avail(s.l.children[0])
 	default:
@@ -141,6 +204,18 @@ func (s *zzScene) faultShape() string {
 				f = append(f, "parts-unavailable>parity")
 			}
 			if !s.avail(s.l.children[0]) {
+				f = append(f, "part0-unavailable")
+			}
+		}
+	}
+	if s.l.kind == "ecsplit" {
+		if miss, p0 := s.worstChild(); miss > 0 {
+			if miss <= int(s.w.ec.ParityPartNum) {
+				f = append(f, "parts-unavailable<=parity")
+			} else {
+				f = append(f, "parts-unavailable>parity")
+			}
+			if p0 {
 				f = append(f, "part0-unavailable")
 			}
 		}
@@ -185,11 +260,48 @@ func zzPick(r *simkit.R, n int, exclude map[int]bool) int {
 	return c[r.Intn(len(c))]
 }
 
+// loseParts makes 0, 1, parity or parity+1 of the given EC parts unavailable: removed from
+// their holders, or (nodes other than the entry node) the holders go down or hang.
+func (s *zzScene) loseParts(parts []*object.Object, nodeFaults bool) {
+	r, w := s.r, s.w
+	p := int(w.ec.ParityPartNum)
+	n := []int{0, 1, p, p + 1}[r.Weighted(4, 2, 4, 1)]
+	s.lostParts += n
+	lost := map[int]bool{}
+	for k := 0; k < n; k++ {
+		idx := 0
+		if k > 0 || !r.Bool(40) {
+			idx = zzPick(r, len(parts), lost)
+		}
+		if idx < 0 || lost[idx] {
+			idx = zzPick(r, len(parts), lost)
+		}
+		if idx < 0 {
+			return
+		}
+		lost[idx] = true
+		flavour := 0
+		if nodeFaults {
+			flavour = r.Weighted(5, 3, 2)
+		}
+		for _, h := range zzHolders(w, parts[idx].GetID()) {
+			switch {
+			case flavour == 0 || h == 0:
+				w.nodes[h].remove(parts[idx].GetID())
+			case flavour == 1:
+				w.nodes[h].down = true
+			default:
+				w.nodes[h].hang = true
+			}
+		}
+	}
+}
+
 func zzBuildScene(r *simkit.R) *zzScene {
-	kind := r.Weighted(2, 4, 4, 5) // whole, v2, v1, ec
+	kind := r.Weighted(2, 4, 4, 5, 3) // whole, v2, v1, ec, size-split in an EC container
 	var rule *iec.Rule
 	minNodes := 3
-	if kind == 3 {
+	if kind >= 3 {
 		ru := []iec.Rule{{DataPartNum: 2, ParityPartNum: 1}, {DataPartNum: 3, ParityPartNum: 1}, {DataPartNum: 4, ParityPartNum: 2}, {DataPartNum: 3, ParityPartNum: 2}}[r.Intn(4)]
 		rule = &ru
 		minNodes = max(3, int(ru.DataPartNum+ru.ParityPartNum))
@@ -236,6 +348,20 @@ func zzBuildScene(r *simkit.R) *zzScene {
 		case 3:
 			size = d * (1 + r.Intn(64))
 		}
+	case 4:
+		d := int(rule.DataPartNum)
+		s.lim = []uint64{64, 100, 255, 1000, 2048}[r.Intn(5)]
+		k := 2 + r.Intn(5)
+		switch r.Intn(4) {
+		case 0:
+			size = k * int(s.lim)
+		case 1:
+			size = k*int(s.lim) + 1 + r.Intn(d+1)
+		case 2:
+			size = k*int(s.lim) - 1
+		case 3:
+			size = int(s.lim) + 1 + r.Intn(int(s.lim)*5)
+		}
 	}
 	payload := r.Bytes(size)
 	switch kind {
@@ -247,6 +373,8 @@ func zzBuildScene(r *simkit.R) *zzScene {
 		s.l = zzBuildV1(w, payload, s.lim, r.Bytes(16), r.Bool(30))
 	case 3:
 		s.l = zzBuildEC(w, payload, *rule)
+	case 4:
+		s.l = zzBuildECSplit(w, payload, s.lim, *rule)
 	}
 	l := s.l
 	l.computeBounds(rule)
@@ -256,15 +384,21 @@ func zzBuildScene(r *simkit.R) *zzScene {
 
 	// placement
 	var phys []*object.Object
-	phys = append(phys, l.children...)
+	if l.kind == "ecsplit" {
+		for _, ps := range l.parts {
+			phys = append(phys, ps...)
+		}
+	} else {
+		phys = append(phys, l.children...)
+	}
 	if l.link != nil {
 		phys = append(phys, l.link)
 	}
 	w.rot[l.parentID] = r.Intn(nn)
-	if l.kind == "ec" {
-		order := w.orderFor(l.parentID)
+	placeParts := func(parent oid.ID, parts []*object.Object) {
+		order := w.orderFor(parent)
 		total := int(rule.DataPartNum + rule.ParityPartNum)
-		for i, p := range l.children {
+		for i, p := range parts {
 			var seq []int
 			for x := range iec.NodeSequenceForPart(i, total, nn) {
 				seq = append(seq, x)
@@ -275,7 +409,24 @@ func zzBuildScene(r *simkit.R) *zzScene {
 				w.nodes[order[seq[(j+1)%len(seq)]]].put(p)
 			}
 		}
-	} else {
+	}
+	switch l.kind {
+	case "ec":
+		placeParts(l.parentID, l.children)
+	case "ecsplit":
+		for j, c := range l.children {
+			w.rot[c.GetID()] = r.Intn(nn)
+			placeParts(c.GetID(), l.parts[j])
+		}
+		// the link object is broadcast to the nodes of the rule; some may have missed it
+		w.rot[l.link.GetID()] = r.Intn(nn)
+		order := w.orderFor(l.link.GetID())
+		total := int(rule.DataPartNum + rule.ParityPartNum)
+		keep := 1 + r.Intn(total)
+		for c := 0; c < keep; c++ {
+			w.nodes[order[(c+total-1)%total]].put(l.link)
+		}
+	default:
 		for _, o := range phys {
 			w.rot[o.GetID()] = r.Intn(nn)
 			order := w.orderFor(o.GetID())
@@ -331,29 +482,16 @@ func zzBuildScene(r *simkit.R) *zzScene {
 			}
 		}
 	case "ec":
-		p := int(rule.ParityPartNum)
-		s.lostParts = []int{0, 1, p, p + 1}[r.Weighted(4, 2, 4, 1)]
-		lost := map[int]bool{}
-		for k := 0; k < s.lostParts; k++ {
-			idx := 0
-			if k > 0 || !r.Bool(40) {
-				idx = zzPick(r, len(l.children), lost)
+		s.loseParts(l.children, true)
+	case "ecsplit":
+		if r.Bool(30) {
+			s.linkGone = true
+			for _, n := range w.nodes {
+				n.remove(l.link.GetID())
 			}
-			if idx < 0 || lost[idx] {
-				idx = zzPick(r, len(l.children), lost)
-			}
-			lost[idx] = true
-			flavour := r.Weighted(5, 3, 2)
-			for _, h := range zzHolders(w, l.children[idx].GetID()) {
-				switch {
-				case flavour == 0 || h == 0:
-					w.nodes[h].remove(l.children[idx].GetID())
-				case flavour == 1:
-					w.nodes[h].down = true
-				default:
-					w.nodes[h].hang = true
-				}
-			}
+		}
+		for k := r.Weighted(3, 4, 2); k > 0; k-- {
+			s.loseParts(l.parts[r.Intn(len(l.parts))], false)
 		}
 	}
 	for k := r.Weighted(6, 3, 1); k > 0; k-- {
@@ -376,11 +514,19 @@ func zzBuildScene(r *simkit.R) *zzScene {
 	} else {
 		desc += fmt.Sprintf(" rep=%d", repN)
 	}
-	if l.kind == "v1" || l.kind == "v2" {
+	if l.kind == "v1" || l.kind == "v2" || l.kind == "ecsplit" {
 		desc += fmt.Sprintf(" limit=%d children=%d", s.lim, len(l.children))
 	}
 	r.Logf("world %s base=%v parent-rot=%d deadline=%v", desc, w.base, w.rot[l.parentID], s.dl)
 	for i, o := range l.children {
+		if l.kind == "ecsplit" {
+			var hs []string
+			for _, p := range l.parts[i] {
+				hs = append(hs, fmt.Sprint(zzHolders(w, p.GetID())))
+			}
+			r.Logf("  child %d size=%d rot=%d part holders=%s", i, o.PayloadSize(), w.rot[o.GetID()], strings.Join(hs, ""))
+			continue
+		}
 		r.Logf("  obj %d size=%d holders=%v", i, o.PayloadSize(), zzHolders(w, o.GetID()))
 	}
 	if l.link != nil {
@@ -601,6 +747,11 @@ func (s *zzScene) doOp() {
 		ln := s.drawLen(off)
 		name, opn = fmt.Sprintf("GetRange(off=%d,len=%d)", off, ln), "GetRange"
 		exp = zzExpectOffLen(L, off, ln)
+		if exp.okAllowed && exp.hi == exp.lo {
+			// an empty answer of a container node is an empty stream to the proxying server, which
+			// it refuses; that belongs to the object server, not to the read path under test
+			exp.errAllowed = true
+		}
 		var p RangePrm
 		p.SetCommonParameters(zzCommon(2, nil))
 		p.WithAddress(addr)
@@ -714,6 +865,25 @@ func (s *zzScene) doOp() {
 			}
 		}
 	}
+	if l.kind == "ecsplit" {
+		if s.linkGone && op != 3 {
+			r.Fired("link object missing on all nodes")
+			fault = true
+			if err == nil {
+				r.Probe("EC size-split: link missing -> chain walked back from the last child")
+			}
+		}
+		if miss, _ := s.worstChild(); miss > 0 {
+			r.Fired("EC part unavailable")
+			fault = true
+			if miss == int(w.ec.ParityPartNum) && op != 3 {
+				r.Probe("EC size-split: a child with exactly parity-count parts missing")
+			}
+		}
+		if err == nil && op != 3 {
+			r.Probe("EC size-split object served")
+		}
+	}
 	crossing := false
 	if (op == 1 || op == 2) && exp.okAllowed && exp.hi > exp.lo {
 		crossing = s.crosses(exp.lo, exp.hi)
@@ -722,6 +892,9 @@ func (s *zzScene) doOp() {
 		}
 		if l.kind == "ec" && crossing {
 			r.Probe("range spans EC part boundary")
+		}
+		if l.kind == "ecsplit" && crossing {
+			r.Probe("EC size-split: range spans a child or part boundary")
 		}
 		if l.kind == "ec" && !crossing && exp.class == "satisfiable" {
 			r.Probe("range within single EC part")
@@ -747,7 +920,7 @@ func (s *zzScene) doOp() {
 	if w.remoteGet.Load() > 0 && w.nodes[0].find(l.children[len(l.children)-1].GetID()) == nil && split {
 		r.Probe("last part reachable only via another node")
 	}
-	if (split || l.kind == "ec") && (fault || crossing) {
+	if l.kind != "whole" && (fault || crossing) {
 		r.Nontrivial()
 	}
 
@@ -758,7 +931,7 @@ func (s *zzScene) doOp() {
 			c += ",crosses-boundary"
 		}
 		path := ""
-		if split && op != 3 {
+		if (split || l.kind == "ecsplit") && op != 3 {
 			// which way the object was assembled (by the entry node or by a container node)
 			path = "via last part; "
 			if w.linkRead.Load() {
